@@ -1,2 +1,72 @@
-From CubedV Require Import Model.Util Model.Geometry Model.StoreRegion.
-Lemma placeholder_c05 : touched 10 4 2 1 = [2; 3]. Proof. reflexivity. Qed.
+(* C05: every stored chunk has exactly one writer task, written whole; outputs covered. *)
+
+From CubedV Require Import Model.Util Model.Geometry Model.StoreRegion Model.Rechunk Proofs.GeometryProofs Proofs.StoreProofs Proofs.RechunkProofs.
+From Coq Require Import Sorted ZArith.
+
+
+Theorem C05_touched_spec : forall n c t b j, 0 < t -> 0 < c -> b * c < n ->
+  (In j (touched n c t b) <->
+   (j * t < n /\ overlaps (blk_lo t j, blk_hi n t j) (blk_lo c b, blk_hi n c b))).
+Proof. exact (touched_spec). Qed.
+Print Assumptions C05_touched_spec.
+
+Theorem C05_one_writer_axis : forall n c t j, 0 < t -> 0 < c -> (c mod t = 0 \/ n <= c) -> j * t < n ->
+  exists b, b * c < n /\ writes_whole n c t b j = true /\
+    forall b', b' * c < n -> overlaps (blk_lo t j, blk_hi n t j) (blk_lo c b', blk_hi n c b') -> b' = b.
+Proof. exact (one_writer_axis). Qed.
+Print Assumptions C05_one_writer_axis.
+
+Theorem C05_touched_whole : forall n c t b, 0 < t -> 0 < c -> b * c < n -> (c mod t = 0 \/ n <= c) ->
+  forallb (writes_whole n c t b) (touched n c t b) = true.
+Proof. exact (touched_whole). Qed.
+Print Assumptions C05_touched_whole.
+
+Theorem C05_misaligned_shares_chunk :
+  exists n c t b b' j, b <> b' /\ In j (touched n c t b) /\ In j (touched n c t b').
+Proof. exact (misaligned_shares_chunk). Qed.
+Print Assumptions C05_misaligned_shares_chunk.
+
+Theorem C05_store_task_chunks_aligned : forall scs tcs nbs i,
+  length scs = length tcs -> length nbs = length tcs -> i < length tcs ->
+  0 < nth i tcs 0 ->
+  (nth i (store_task_chunks scs tcs nbs) 0) mod (nth i tcs 0) = 0 \/ nth i nbs 0 <= 1.
+Proof. exact (store_task_chunks_aligned). Qed.
+Print Assumptions C05_store_task_chunks_aligned.
+
+Theorem C05_blocks_nodup : forall nb, NoDup (blocks nb).
+Proof. exact (blocks_nodup). Qed.
+Print Assumptions C05_blocks_nodup.
+
+Theorem C05_blocks_complete : forall nb b, In b (blocks nb) <-> Forall2 lt b nb.
+Proof. exact (blocks_complete). Qed.
+Print Assumptions C05_blocks_complete.
+
+Theorem C05_regions_partition : forall chunks x, Forall2 (fun c xi => xi < sumn c) chunks x ->
+  exists b, In b (blocks (map (@length nat) chunks)) /\ in_region (get_item chunks b) x = true
+  /\ forall b', In b' (blocks (map (@length nat) chunks)) -> in_region (get_item chunks b') x = true -> b' = b.
+Proof. exact (regions_partition). Qed.
+Print Assumptions C05_regions_partition.
+
+Example C05_aligned_tasks_write_whole_chunks : forallb (writes_whole 10 4 2 1) (touched 10 4 2 1) = true.
+Proof. reflexivity. Qed.
+Example C05_misaligned_tasks_share_a_chunk : touched 10 3 2 0 = [0; 1] /\ touched 10 3 2 1 = [1; 2].
+Proof. split; reflexivity. Qed.
+
+(* irregular and regular rechunk copies (sizes in Z, from Model.Rechunk) *)
+Local Open Scope Z_scope.
+
+Theorem C05_split_refines : forall n sc tc l1 x y l2, 0 < n -> 0 < sc -> 0 < tc ->
+  boundaries n sc tc = l1 ++ x :: y :: l2 ->
+  x < y /\ x / sc = (y - 1) / sc /\ x / tc = (y - 1) / tc.
+Proof. exact split_refines. Qed.
+Print Assumptions C05_split_refines.
+
+Theorem C05_fix_copy_spec : forall shape cc tc, allpos shape -> allpos cc -> allpos tc ->
+  length cc = length shape -> length tc = length shape ->
+  let r := fix_copy_chunks shape cc tc in
+  length r = length shape /\ allpos r /\ le_all r cc /\
+  forall i, (i < length shape)%nat ->
+    nth i r 0 <= nth i tc 0 \/ nth i r 0 = nth i shape 0 \/ (nth i r 0) mod (nth i tc 0) = 0.
+Proof. exact fix_copy_spec. Qed.
+Print Assumptions C05_fix_copy_spec.
+
